@@ -17,7 +17,7 @@
      the decoders see the same option record in both runs (C03_equiv), or do not read the
      Lazy/NoCopy/Pool bits (C03_equiv_options; source fact F7: layers/ reads only
      DecodeStreamsAsDatagrams). *)
-From GP Require Import Base PacketCore PacketScript PacketCoreProofs.
+From GP Require Import Base PacketCore PacketScript PacketCoreProofs PacketScriptProofs PacketCoreThms.
 Open Scope Z_scope.
 
 (* Every accessor program returns on the lazy packet, call by call, what it returns on the
@@ -30,11 +30,7 @@ Theorem C03_equiv : forall fam n data first o prog pe,
   exists lp,
     lazy_program (S n) fam (new_lazy data first o) prog = Some (lp, eager_program pe prog) /\
     (existsb forces_all prog = true -> lp_next lp = None /\ lp_p lp = pe).
-Proof.
-  intros fam n data first o prog pe HF Hd He.
-  destruct (lazy_program_sim fam HF n pe prog _ (new_lazy_inv fam n data first o pe Hd He)) as [lp [A [B C]]].
-  exists lp. split; [exact A|]. intros H. apply C. right. exact H.
-Qed.
+Proof. exact thm_C03_equiv. Qed.
 Print Assumptions C03_equiv.
 
 (* The invariant behind it (DESIGN.md A.6), usable from any reachable lazy state: continuing
@@ -44,19 +40,13 @@ Print Assumptions C03_equiv.
 Theorem C03_invariant : forall fam n lp pe,
   CInv n fam lp pe ->
   ext (lp_p lp) pe /\ (lp_next lp = None -> lp_p lp = pe).
-Proof.
-  intros fam n lp pe [k [_ Hc]]. split; [eapply continue_ext; exact Hc|].
-  intros H. eapply continue_done; eauto.
-Qed.
+Proof. exact thm_C03_invariant. Qed.
 Print Assumptions C03_invariant.
 
 Theorem C03_invariant_step : forall fam n lp pe a,
   F6 fam -> CInv n fam lp pe ->
   exists lp', lazy_access (S n) fam lp a = Some (lp', eager_access pe a) /\ CInv n fam lp' pe.
-Proof.
-  intros fam n lp pe a HF HI. destruct (lazy_access_sim fam HF n lp pe a HI) as [lp' [A [B _]]].
-  exists lp'. split; assumption.
-Qed.
+Proof. exact thm_C03_invariant_step. Qed.
 Print Assumptions C03_invariant_step.
 
 (* Different option sets on the two sides: eager packet built with oe, lazy packet with ol,
@@ -69,17 +59,13 @@ Theorem C03_equiv_options : forall fam n data first oe ol prog pe,
     lazy_program (S n) fam (new_lazy data first ol) prog = Some (lp, eager_program pe prog) /\
     (existsb forces_all prog = true ->
        lp_next lp = None /\ lp_p lp = reopt ol (new_packet_origin ol data) pe).
-Proof.
-  intros fam n data first oe ol prog pe HF HB Hd HV He.
-  pose proof (new_eager_reopt fam HB n data first oe ol pe HV He) as He2.
-  destruct (C03_equiv fam n data first ol prog _ HF Hd He2) as [lp [A B]].
-  exists lp. rewrite eager_program_reopt in A. split; assumption.
-Qed.
+Proof. exact thm_C03_equiv_options. Qed.
 Print Assumptions C03_equiv_options.
 
 (* reopt changes nothing an accessor can see *)
 Theorem C03_reopt_invisible : forall o org p a, eager_access (reopt o org p) a = eager_access p a.
-Proof. exact eager_access_reopt. Qed.
+Proof. exact thm_C03_reopt_invisible. Qed.
+Print Assumptions C03_reopt_invisible.
 
 (* With the progress hypothesis (a decoder that continues hands on a strictly shorter
    payload) and recovery on, nothing is left to assume about fuel: both packets exist and
@@ -89,12 +75,7 @@ Theorem C03_equiv_total : forall fam data first o prog,
   exists pe lp,
     new_eager (S (length data)) fam data first o = NewOk pe /\
     lazy_program (S (S (length data))) fam (new_lazy data first o) prog = Some (lp, eager_program pe prog).
-Proof.
-  intros fam data first o prog HP Hs Hd.
-  destruct (new_eager_total fam HP data first o Hs) as [pe He].
-  destruct (C03_equiv fam _ data first o prog pe (progress_F6 fam HP) Hd He) as [lp [A _]].
-  exists pe, lp. split; assumption.
-Qed.
+Proof. exact thm_C03_equiv_total. Qed.
 Print Assumptions C03_equiv_total.
 
 (* The same statement about the functions the correspondence runner executes
@@ -106,33 +87,23 @@ Theorem C03_runner : forall fam n data first o prog pe,
     new_packet (S n) fam data first o = NewOk (PLazy (new_lazy data first o)) /\
     run_program (S n) fam (PLazy (new_lazy data first o)) prog = (PLazy lp, map Some (eager_program pe prog)) /\
     run_program (S n) fam (PEager pe) prog = (PEager pe, map Some (eager_program pe prog)).
-Proof.
-  intros fam n data first o prog pe HF Hd Hl He.
-  destruct (C03_equiv fam n data first o prog pe HF Hd He) as [lp [A _]].
-  exists lp. split; [unfold new_packet; rewrite Hl; reflexivity|].
-  split; [apply run_program_lazy; exact A | apply run_program_eager].
-Qed.
+Proof. exact thm_C03_runner. Qed.
 Print Assumptions C03_runner.
 
-(* ---- the side conditions are needed (refutations by concrete witnesses) ---- *)
-
-(* F6: a first decoder that continues without adding a layer: eager fails with
-   ErrNoLayersAdded (a DecodeFailure layer), lazy re-decodes the whole data with the next
-   decoder and reports no error. *)
-Definition tbl_no_add : script_table :=
-  [ (10, [mkVariant [] [] (Next 11) None]);
-    (11, [mkVariant [mkLspec 11 1 PRest] [SAdd 0] Ret None]) ].
+(* The scripted families the correspondence executes: the decidable check the runner evaluates
+   per case (tag hyp-F6) implies F6; every scripted family is blind to Lazy/NoCopy/Pool. *)
+Theorem C03_scripted_families : forall tbl,
+  (table_F6b tbl = true -> F6 (family_of tbl)) /\ opts_blind (family_of tbl).
+Proof. exact thm_C03_scripted_families. Qed.
+Print Assumptions C03_scripted_families.
 
 Theorem C03_without_F6_refuted :
   exists tbl data first o pe lp rs,
     new_eager 10 (family_of tbl) data first o = NewOk pe /\
     lazy_program 11 (family_of tbl) (new_lazy data first o) [AErrorLayer] = Some (lp, rs) /\
     rs <> eager_program pe [AErrorLayer].
-Proof.
-  exists tbl_no_add, [1;2;3], 10, (mkOpts true false false false false).
-  eexists; eexists; eexists. split; [vm_compute; reflexivity|]. split; [vm_compute; reflexivity|].
-  vm_compute. discriminate.
-Qed.
+Proof. exact thm_C03_without_F6_refuted. Qed.
+Print Assumptions C03_without_F6_refuted.
 
 (* empty input: eager calls the first decoder (here it fails), lazy never does *)
 Theorem C03_empty_input_refuted :
@@ -140,48 +111,8 @@ Theorem C03_empty_input_refuted :
     new_eager 10 (family_of tbl) [] first o = NewOk pe /\
     lazy_program 11 (family_of tbl) (new_lazy [] first o) [ALayers] = Some (lp, rs) /\
     rs <> eager_program pe [ALayers].
-Proof.
-  exists [(10, [mkVariant [] [] Fail None])], 10, (mkOpts true false false false false).
-  eexists; eexists; eexists. split; [vm_compute; reflexivity|]. split; [vm_compute; reflexivity|].
-  vm_compute. discriminate.
-Qed.
-
-(* ---- non-vacuity: a family meeting every hypothesis, on which the lazy packet really stops
-   early, recovers a panic after an add, and still agrees ---- *)
-Definition ex_fam : family := fun t =>
-  if t =? 10 then Some (fun data o =>
-    match data with
-    | [] => ([], Fail)
-    | b :: rest => let l := mkLayer 10 [b] rest false in ([Add l; SetLink l], Next 11)
-    end)
-  else if t =? 11 then Some (fun data o =>
-    match data with
-    | [] => ([], Fail)
-    | b :: rest =>
-      let l1 := mkLayer 11 [] (b :: rest) false in
-      let l2 := mkLayer 12 [b] rest false in
-      ([Add l1; Add l2; SetNetwork l2; SetTruncated], if o_dsad o then Next 11 else PanicT)
-    end)
-  else None.
-
-Lemma ex_fam_progress : progress ex_fam.
-Proof.
-  intros t d data o acts t' EF ED. unfold ex_fam in EF.
-  destruct (t =? 10).
-  - inversion EF; subst d. destruct data as [|b rest]; inversion ED; subst.
-    eexists; split; [reflexivity|]. cbn. lia.
-  - destruct (t =? 11); [|discriminate]. inversion EF; subst d.
-    destruct data as [|b rest]; [inversion ED|].
-    destruct (o_dsad o); inversion ED; subst.
-    eexists; split; [reflexivity|]. cbn. lia.
-Qed.
-
-Lemma ex_fam_blind : opts_blind ex_fam.
-Proof.
-  intros t d data o1 o2 EF [_ HV]. unfold ex_fam in EF.
-  destruct (t =? 10); [inversion EF; reflexivity|].
-  destruct (t =? 11); [|discriminate]. inversion EF. rewrite HV. reflexivity.
-Qed.
+Proof. exact thm_C03_empty_input_refuted. Qed.
+Print Assumptions C03_empty_input_refuted.
 
 Example C03_nonvacuous :
   progress ex_fam /\ F6 ex_fam /\ opts_blind ex_fam /\
@@ -197,9 +128,5 @@ Example C03_nonvacuous :
       [ALinkLayer; ALayer 12; AErrorLayer; ALayerClass [1; 12]; AString; ALayers]
       = Some (lp2, eager_program pe [ALinkLayer; ALayer 12; AErrorLayer; ALayerClass [1; 12]; AString; ALayers]) /\
     p_trunc (lp_p lp2) = true /\ p_layers (lp_p lp2) = p_layers pe.
-Proof.
-  split; [exact ex_fam_progress|]. split; [exact (progress_F6 _ ex_fam_progress)|].
-  split; [exact ex_fam_blind|].
-  eexists; eexists; eexists. split; [vm_compute; reflexivity|].
-  repeat (split; [vm_compute; reflexivity|]). vm_compute. reflexivity.
-Qed.
+Proof. exact thm_C03_nonvacuous. Qed.
+Print Assumptions C03_nonvacuous.
